@@ -73,6 +73,8 @@ func Defects(t M) []Mutation {
 			}
 		}
 		add("annotation-key-valid-edge@"+level, p, "set", M{strings.Repeat("a", 63): "v", "UPPER.example.com/N_a.m-e": "", "a": "v"}, val)
+		// several keys of one set that are related: equal up to case, one a prefix of the other, equal name under different prefixes
+		add("annotation-keys-related-valid@"+level, p, "set", M{"vendor.com/Mode": "a", "vendor.com/mode": "b", "Vendor.com/mode": "c", "mode": "d", "MODE": "e", "vendor.com/mode.x": "f", "other.org/mode": "g"}, val)
 		add("annotations-too-large@"+level, p, "set", M{"big": strings.Repeat("x", 256*1024)}, inv)
 		add("annotations-at-size-limit@"+level, p, "set", M{"big": strings.Repeat("x", 256*1024-3)}, val)
 		add("annotation-value-not-string@"+level, p, "set", M{"k": L{"x"}}, inv)
